@@ -40,7 +40,7 @@ def project(rows, types):
 
 PROBES_BY = {
     "C13": ["ops", "reads", "chunked_reads", "multi_chunk_reads", "appends", "finalized", "buffer_flushes", "caller_reused_its_object", "dictionary_typed_parquet", "parquet_from_sliced_frame", "interleaved_iterators"],
-    "C14": ["ops", "merges", "tie_merges", "sortedness_faults", "abandoned_merges"],
+    "C14": ["ops", "merges", "tie_merges", "sortedness_faults", "abandoned_merges", "merges_with_projection", "projection_moves_score_column"],
 }
 
 STATE = {"failed": None, "examples": 0, "digests": set(), "stats": Counter(), "kinds": set(), "max_ops": 0, "process_ops": []}
@@ -180,10 +180,12 @@ def make_machine(which, base_dir):
             @rule(data=st.data(), mode=st.sampled_from(["read", "chunked", "rows", "merge_readers"]),
                   row_type=st.sampled_from(["DataFrame", "Dicts", "Records"]),
                   reader_chunk=st.sampled_from([1, 2, 3, 5, 8, 1000]), out_chunk=st.integers(1, 12),
-                  take=st.sampled_from([None, None, None, 1, 3]))
-            def merge_readers(self, data, mode, row_type, reader_chunk, out_chunk, take):
+                  take=st.sampled_from([None, None, None, 1, 3]),
+                  col_pick=st.one_of(st.none(), st.none(), st.lists(st.integers(0, 5), min_size=1, max_size=4)))
+            def merge_readers(self, data, mode, row_type, reader_chunk, out_chunk, take, col_pick):
                 self._do("merge_readers", group=data.draw(st.sampled_from(self._groups())), mode=mode, row_type=row_type,
-                         reader_chunk=reader_chunk, out_chunk=out_chunk, take=take if mode == "rows" else None)
+                         reader_chunk=reader_chunk, out_chunk=out_chunk, take=take if mode == "rows" else None,
+                         col_pick=col_pick if mode != "merge_readers" else None)
 
             @precondition(lambda self: any(t["kind"] == "run" for t in self.world.tables.values()))
             @rule(data=st.data(), run_index=st.integers(0, 7), i=st.integers(0, 39), j=st.integers(0, 39),
